@@ -55,8 +55,15 @@ class Impl:
 
         self.regex = regex
         self.ps, self.lp, self.pp, self.ut = ps, lp, pp, ut
-        self.match_label = ps.collect_hints.__defaults__[0]
-        self.match_isolated = ps.centrifugate_hints.__defaults__[0]
+        # The two compiled patterns are taken from the default arguments WHEN the code keeps them there (its
+        # "default-argument trick"); a harmless rewrite may move them: the token-level validation of the model's
+        # transcription is then skipped (and counted), the behavioural streams still tie the model to the code.
+        def default_callable(f):
+            d = getattr(f, "__defaults__", None) or ()
+            return d[0] if d and callable(d[0]) else None
+
+        self.match_label = default_callable(ps.collect_hints)
+        self.match_isolated = default_callable(ps.centrifugate_hints)
         self.hint_comment = ps.HINT_COMMENT
         self._s = regex.compile(r"\s")
         self._w = regex.compile(r"\w")
@@ -234,7 +241,10 @@ def stream_regexes(ctx, impl, drv):
         b = m[1]
         return ["..." if b == "…" else b, m[2], bool(m[3])]
 
-    checks.append(("regex:match_label", toks, r, ml))
+    if impl.match_label is not None:
+        checks.append(("regex:match_label", toks, r, ml))
+    else:
+        ctx.dist("regex:match_label:skipped-no-match-callable")
     lines = list(seqs([" ", "\t", "#", MARK, MARK + " ", "x", "...", "\x1c", "\r", "\u00a0"], n + 1))
     r = drv.call("c12.isolated", lines=lines)["r"]
 
@@ -242,7 +252,10 @@ def stream_regexes(ctx, impl, drv):
         m = impl.match_isolated(l)
         return None if m is None else (m[1] or "")
 
-    checks.append(("regex:match_isolated_hints", lines, r, iso))
+    if impl.match_isolated is not None:
+        checks.append(("regex:match_isolated_hints", lines, r, iso))
+    else:
+        ctx.dist("regex:match_isolated_hints:skipped-no-match-callable")
     r = drv.call("c12.hint_tokens", lines=lines)["r"]
 
     def ht(l):
@@ -283,8 +296,9 @@ def stream_regexes(ctx, impl, drv):
             ctx.cov["disagreements_checked"] += 1
             ctx.broken.append(f"corr:{name}")
             ctx.notes.append({"stream": name, "input": bad[0], "impl": bad[1], "model": bad[2]})
-    ctx.sample({"stream": "regex:match_label", "input": "foo......", "impl": ml("foo......"),
-                "model": drv.call("c12.match_label", toks=["foo......"])["r"][0]})
+    if impl.match_label is not None:
+        ctx.sample({"stream": "regex:match_label", "input": "foo......", "impl": ml("foo......"),
+                    "model": drv.call("c12.match_label", toks=["foo......"])["r"][0]})
 
 
 POOL = ["+L", "-L", "L", "L...", "...L", "…L", "L…", "-L...", "M...", "...M", "-M", "+-L", "...L...", "# x",
